@@ -182,6 +182,47 @@ Definition defyear_ok (search : pat -> str -> option mres) : Prop :=
   forall w m, search PDefYear w = Some m ->
     truthy_o (mget m w g_year) = true -> truthy_o (mget m w g_defendant) = true.
 
+(* relativised to a window predicate; defyear_ok_g: the windows add_defendant builds from a text
+   without whitespace other than U+0020 (the window is stripped of ", (" so it starts with a
+   non-whitespace character) *)
+Definition defyear_ok_w (Wd : str -> Prop) (search : pat -> str -> option mres) : Prop :=
+  forall w m, Wd w -> search PDefYear w = Some m ->
+    truthy_o (mget m w g_year) = true -> truthy_o (mget m w g_defendant) = true.
+
+Definition defyear_ok_g (is_space : N -> bool) (search : pat -> str -> option mres) : Prop :=
+  forall w m, ws_clean is_space w -> (exists c r, w = c :: r /\ is_space c = false) ->
+    search PDefYear w = Some m ->
+    truthy_o (mget m w g_year) = true -> truthy_o (mget m w g_defendant) = true.
+
+Definition defyear_window (is_space : N -> bool) (w : str) : Prop :=
+  ws_clean is_space w /\ exists c r, w = c :: r /\ is_space c = false.
+
+Lemma defyear_ok_w_of_ok : forall Wd search, defyear_ok search -> defyear_ok_w Wd search.
+Proof. intros Wd search H w m _ Hs. exact (H w m Hs). Qed.
+
+Lemma defyear_ok_g_of_ok : forall is_space search, defyear_ok search -> defyear_ok_g is_space search.
+Proof. intros is_space search H w m _ _ Hs. exact (H w m Hs). Qed.
+
+Lemma defyear_ok_w_of_g : forall is_space search,
+  defyear_ok_g is_space search -> defyear_ok_w (defyear_window is_space) search.
+Proof. intros is_space search H w m [H1 H2] Hs. exact (H w m H1 H2 Hs). Qed.
+
+(* the head of a non-empty stripped string is not a stripped character *)
+Lemma lstrip_head P s c r : lstrip P s = c :: r -> P c = false.
+Proof.
+  induction s as [|x s IH]; cbn [lstrip]; [discriminate|].
+  destruct (P x) eqn:Ex; [exact IH|]. intros [= <- _]. exact Ex.
+Qed.
+
+Lemma strip_head P s c r : strip P s = c :: r -> P c = false.
+Proof.
+  unfold strip. intros H. destruct (rstrip_prefix P (lstrip P s)) as [tl Htl].
+  rewrite H in Htl. cbn [app] in Htl. exact (lstrip_head P s c (r ++ tl) Htl).
+Qed.
+
+Lemma infix_In (p s : str) : infix p s -> forall c, In c p -> In c s.
+Proof. intros [a [b ->]] c Hc. apply in_or_app. right. apply in_or_app. left. exact Hc. Qed.
+
 Section Meta.
   Variable search : pat -> str -> option mres.
   Variable refsearch : list (str * str) -> str -> list (nat * nat * list (str * option str)).
@@ -196,9 +237,16 @@ Section Meta.
   Variable is_space : N -> bool.
   Variable text : str.
   Variable words : list elem.
+  Variable Wok : str -> Prop.     (* windows on which the backward-anchor clause is required *)
+  Variable Wd : str -> Prop.      (* windows on which defyear_ok is required *)
 
   Hypothesis Hstream : stream_ok text words.
-  Hypothesis Hsearch : search_ok search.
+  Hypothesis Hsearch : search_ok_w Wok search.
+  Hypothesis HWok : forall a b, Wok (slice text a b).
+  (* the window of add_defendant: a non-empty infix of the text whose first character is none of
+     ", (" *)
+  Hypothesis HWd : forall w c r, infix w text -> w = c :: r ->
+    in_chars [COMMA; SP; LPAR] c = false -> Wd w.
 
   Let twf := tok_wf text words Hstream.
 
@@ -212,7 +260,7 @@ Section Meta.
       (a <= b)%nat /\ (b <= m_end m)%nat /\ (t_end t + m_end m <= length text)%nat.
   Proof.
     intros Hn Hs Hg.
-    destruct (fwd_match search MAXC text words Hstream Hsearch _ _ _ _ _ Hn Hs) as (n & Hw & Hle & Hme & Hok).
+    destruct (fwd_match search MAXC text words Wok Hstream Hsearch _ _ _ _ _ Hn Hs) as (n & Hw & Hle & Hme & Hok).
     destruct (mget_span _ _ _ _ Hok Hg) as (a & b & Hgs & Hsl & Ha & Hab & Hb & _ & _).
     exists a, b. split; [exact Hgs|]. split; [|lia].
     rewrite Hsl, Hw. apply slice_slice. lia.
@@ -224,7 +272,7 @@ Section Meta.
     (t_end t + m_end m <= length text)%nat.
   Proof.
     intros Hn Hs.
-    destruct (fwd_match search MAXC text words Hstream Hsearch _ _ _ _ _ Hn Hs) as (n & Hw & Hle & Hme & Hok).
+    destruct (fwd_match search MAXC text words Wok Hstream Hsearch _ _ _ _ _ Hn Hs) as (n & Hw & Hle & Hme & Hok).
     lia.
   Qed.
 
@@ -235,7 +283,7 @@ Section Meta.
   Proof.
     intros Hn Hs.
     destruct (pos_token _ _ _ _ Hstream Hn) as (Hp0 & _ & _).
-    pose proof (bwd_match_len search MAXC text words Hstream Hsearch i true p m
+    pose proof (bwd_match_len search MAXC text words Wok Hstream Hsearch i true p m
                   (Nat.lt_le_incl _ _ (index_lt words _ _ Hn)) Hs) as H.
     destruct (Hsearch _ _ _ Hs) as ((H1 & _) & _). rewrite Hp0 in H. lia.
   Qed.
@@ -253,7 +301,8 @@ Section Meta.
     destruct (window_bwd_suffix MAXC text words i true Hstream
                 (Nat.lt_le_incl _ _ (index_lt words _ _ Hn))) as (n & Hnp & Hw).
     rewrite Hp0 in *.
-    destruct (Hsearch _ _ _ Hs) as (Hok & _ & Hend & _). specialize (Hend Hp).
+    destruct (Hsearch _ _ _ Hs) as (Hok & _ & Hend & _).
+    specialize (Hend Hp ltac:(rewrite Hw; apply HWok)).
     set (w := window_bwd MAXC words i true) in *.
     assert (Hwl : length w = n) by (rewrite Hw, slice_length; lia).
     rewrite Hwl in Hend.
@@ -311,7 +360,7 @@ Section Meta.
     destruct (extract_pin_cite search MAXC words i (ze t) (Some pg)) as [[[pin span_end] par]|] eqn:Ee;
       [|discriminate He].
     cbn [bind] in He. injection He as <-.
-    destruct (epc_ok search MAXC text words Hstream Hsearch _ _ _ _ _ _ Hn Hsuf Ee)
+    destruct (epc_ok search MAXC text words Wok Hstream Hsearch _ _ _ _ _ _ Hn Hsuf Ee)
       as [(_ & -> & ->)|(d & -> & Hd & Hpin)].
     - apply locs_own with (lo := fs) (hi := t_end t).
       + unfold full_span_of, span_of. psimp. lia.
@@ -360,7 +409,7 @@ Section Meta.
     set (ante := match search PSupraAnte w with Some m => mget m w g_antecedent | None => None end) in *.
     set (vol := match search PSupraAnte w with Some m => mget m w g_volume | None => None end) in *.
     clearbody alen ante vol. injection He as <-.
-    destruct (epc_ok search MAXC text words Hstream Hsearch _ _ _ _ _ _ Hn (suffix_nil _) Ee)
+    destruct (epc_ok search MAXC text words Wok Hstream Hsearch _ _ _ _ _ _ Hn (suffix_nil _) Ee)
       as [(_ & -> & ->)|(d & -> & Hd & Hpin)].
     - apply locs_own with (lo := fs) (hi := t_end t).
       + unfold full_span_of, span_of. psimp. lia.
@@ -388,7 +437,7 @@ Section Meta.
     destruct (extract_pin_cite search MAXC words i (ze t) (Some [])) as [[[pin span_end] par]|] eqn:Ee;
       [|discriminate He].
     cbn [bind] in He. injection He as <-.
-    destruct (epc_ok search MAXC text words Hstream Hsearch _ _ _ _ _ _ Hn (suffix_nil _) Ee)
+    destruct (epc_ok search MAXC text words Wok Hstream Hsearch _ _ _ _ _ _ Hn (suffix_nil _) Ee)
       as [(_ & -> & ->)|(d & -> & Hd & Hpin)].
     - apply locs_own with (lo := t_start t) (hi := t_end t).
       + unfold full_span_of, span_of, zs. psimp. lia.
@@ -634,7 +683,7 @@ Section Meta.
         * destruct (ends_with SEMI (t_data t)); [discriminate Hd|]. eapply Hrec; exact Hd.
   Qed.
 
-  Hypothesis Hdefyear : defyear_ok search.
+  Hypothesis Hdefyear : defyear_ok_w Wd search.
 
   Lemma defendant_meta i t c c' fe :
     nth_error words i = Some (T t) -> shape t i c -> p_full_start c = None ->
@@ -684,7 +733,15 @@ Section Meta.
       { destruct dstr; [discriminate Ene|reflexivity]. }
       destruct (search PDefYear dstr) as [m|] eqn:Em.
       + pose proof (Lg m g_defendant) as Ld. pose proof (Lg m g_year) as Ly.
-        pose proof (Hdefyear _ _ Em) as Hdy.
+        assert (HWdd : Wd dstr).
+        { destruct dstr as [|c0 r0] eqn:Edstr; [discriminate Ene|].
+          apply (HWd (c0 :: r0) c0 r0); [|reflexivity|].
+          - eapply infix_trans; [exact Ldef|]. unfold slice.
+            exists (firstn fs text), (skipn (t_start t - fs) (skipn fs text)).
+            rewrite <- (firstn_skipn fs text) at 1. f_equal.
+            symmetry. apply firstn_skipn.
+          - exact (strip_head _ _ _ _ Edstr). }
+        pose proof (Hdefyear _ _ HWdd Em) as Hdy.
         destruct pl as [p|]; injection Hd as <-.
         all: (split; [unfold full_span_of; psimp; exact Hfsz|]).
         all: (split; [unfold locs; psimp; repeat apply conj; assumption|]).
@@ -759,7 +816,7 @@ Section Meta.
     destruct (full_class source_of t) as [cl|] eqn:Ec; [|discriminate He].
     cbn [bind] in He.
     destruct (full_class_cases _ _ _ Ec) as [->|[->| ->]].
-    - destruct (post_ok search MAXC D highest is_space text words Hstream Hsearch i t Hn)
+    - destruct (post_ok search MAXC D highest is_space text words Wok Hstream Hsearch i t Hn)
         as (_ & Hsh & Hfs0 & _).
       destruct (post_meta i t Hn) as (fe & Hfe & Hfe1 & Hfe2 & Hlocs & _ & _).
       cbv zeta in *.
@@ -918,7 +975,7 @@ Section Meta.
       + destruct (extract_full _ _ _ _ _ _ _ _ _ _ _ _) as [c0|] eqn:Ee; [|discriminate Hs].
         cbn [bind] in Hs. injection Hs as <-.
         pose proof (inv_offsets_ok _ _ (full_ok search MAXC BACK D highest this_year edition_of
-                      source_of is_space text words Hstream Hsearch _ _ _ Hn Ee)) as H0.
+                      source_of is_space text words Wok Hstream Hsearch HWok _ _ _ Hn Ee)) as H0.
         pose proof (full_meta _ _ _ Hn Ee) as Hown.
         match goal with |- minv (?c :: _) => set (cc := c) end.
         assert (Hoffc : offsets_ok text cc).
@@ -1012,7 +1069,7 @@ Section Meta.
     destruct (full_class source_of t) as [cl|] eqn:Ec; [|discriminate He].
     cbn [bind] in He.
     destruct (full_class_cases _ _ _ Ec) as [->|[->| ->]].
-    - destruct (post_ok search MAXC D highest is_space text words Hstream Hsearch i t Hn)
+    - destruct (post_ok search MAXC D highest is_space text words Wok Hstream Hsearch i t Hn)
         as (_ & Hsh & _). cbv zeta in Hsh.
       destruct (add_defendant _ _ _ _ _ _ _) as [c2|] eqn:Ed; [|discriminate He].
       cbn [bind] in He. injection He as <-.
@@ -1123,7 +1180,7 @@ Section Meta.
       + destruct (extract_full _ _ _ _ _ _ _ _ _ _ _ _) as [c0|] eqn:Ee; [|discriminate Hs].
         cbn [bind] in Hs. injection Hs as <-.
         pose proof (full_ok search MAXC BACK D highest this_year edition_of
-                      source_of is_space text words Hstream Hsearch _ _ _ Hn Ee) as H0.
+                      source_of is_space text words Wok Hstream Hsearch HWok _ _ _ Hn Ee) as H0.
         pose proof (full_tok _ _ _ Hn Ee) as Ht0.
         match goal with |- sinv _ (?c :: _) => set (cc := c) end.
         assert (Hic : inv text cc /\ tokc t cc).
@@ -1224,6 +1281,45 @@ Definition cits_nonempty (cits : list (nat * tok)) : Prop :=
 (* ------------------------------------------------------------------ *)
 
 (* Weak form: donors are taken from the unfiltered citation list. *)
+Theorem get_citations_metadata_weak_w :
+  forall (Wok Wd : str -> Prop)
+         search refsearch MAXC BACK D highest this_year edition_of source_of valid_name is_space
+         text words cits ra l,
+  text <> s_eyecite ->
+  stream_ok text words -> cits_ok words cits -> toks_ok source_of words ->
+  (forall a b, Wok (slice text a b)) ->
+  (forall w c r, infix w text -> w = c :: r -> in_chars [COMMA; SP; LPAR] c = false -> Wd w) ->
+  search_ok_w Wok search -> refs_ok refsearch ->
+  defyear_ok_w Wd search ->
+  get_citations search refsearch MAXC BACK D highest this_year edition_of source_of valid_name is_space
+                text words cits ra = Ok l ->
+  exists acc,
+    cite_run search refsearch MAXC BACK D highest this_year edition_of source_of valid_name is_space
+             text words [] cits = Ok acc /\
+    (forall c, In c l -> In c (rev acc)) /\
+    Forall (meta_ok text (rev acc)) l.
+Proof.
+  intros Wok Wd search refsearch MAXC BACK D highest this_year edition_of source_of valid_name is_space
+         text words cits ra l Hne Hstream Hcits Htoks HWok HWd Hsearch Hrefs Hdy Hg.
+  unfold get_citations in Hg.
+  destruct (str_eqb_spec text s_eyecite) as [E|_]; [contradiction|].
+  destruct (cite_run _ _ _ _ _ _ _ _ _ _ _ _ _ _ _) as [acc|] eqn:Er; [|discriminate Hg].
+  cbn [bind] in Hg. injection Hg as <-.
+  exists acc. split; [reflexivity|].
+  assert (Hacc : minv text acc).
+  { eapply (cite_run_meta search refsearch MAXC BACK D highest this_year edition_of source_of
+              valid_name is_space text words Wok Wd Hstream Hsearch HWok HWd Hdy Htoks Hrefs);
+      [exact Hcits|constructor|exact Er]. }
+  assert (Hsub : forall c, In c (if ra then disambiguate is_resource has_guess (filter_pcits (rev acc))
+                                 else filter_pcits (rev acc)) -> In c (rev acc)).
+  { intros c Hc. apply filter_pcits_incl. destruct ra; [|exact Hc].
+    unfold disambiguate in Hc. apply filter_In in Hc. tauto. }
+  split; [exact Hsub|].
+  apply Forall_forall. intros c Hc. apply Hsub in Hc.
+  unfold minv in Hacc. rewrite Forall_forall in Hacc.
+  eapply meta_ok_mono; [|apply Hacc, in_rev, Hc]. intros d Hd. apply in_rev in Hd. exact Hd.
+Qed.
+
 Theorem get_citations_metadata_weak :
   forall search refsearch MAXC BACK D highest this_year edition_of source_of valid_name is_space
          text words cits ra l,
@@ -1241,21 +1337,10 @@ Theorem get_citations_metadata_weak :
 Proof.
   intros search refsearch MAXC BACK D highest this_year edition_of source_of valid_name is_space
          text words cits ra l Hne Hstream Hcits Htoks Hsearch Hrefs Hdy Hg.
-  unfold get_citations in Hg.
-  destruct (str_eqb_spec text s_eyecite) as [E|_]; [contradiction|].
-  destruct (cite_run _ _ _ _ _ _ _ _ _ _ _ _ _ _ _) as [acc|] eqn:Er; [|discriminate Hg].
-  cbn [bind] in Hg. injection Hg as <-.
-  exists acc. split; [reflexivity|].
-  assert (Hacc : minv text acc).
-  { eapply cite_run_meta; try eassumption. constructor. }
-  assert (Hsub : forall c, In c (if ra then disambiguate is_resource has_guess (filter_pcits (rev acc))
-                                 else filter_pcits (rev acc)) -> In c (rev acc)).
-  { intros c Hc. apply filter_pcits_incl. destruct ra; [|exact Hc].
-    unfold disambiguate in Hc. apply filter_In in Hc. tauto. }
-  split; [exact Hsub|].
-  apply Forall_forall. intros c Hc. apply Hsub in Hc.
-  unfold minv in Hacc. rewrite Forall_forall in Hacc.
-  eapply meta_ok_mono; [|apply Hacc, in_rev, Hc]. intros d Hd. apply in_rev in Hd. exact Hd.
+  exact (get_citations_metadata_weak_w (fun _ => True) (fun _ => True)
+           _ _ _ _ _ _ _ _ _ _ _ _ _ _ _ _ Hne Hstream Hcits Htoks (fun _ _ => I)
+           (fun _ _ _ _ _ _ => I) (search_ok_w_of_ok _ _ Hsearch) Hrefs
+           (defyear_ok_w_of_ok _ _ Hdy) Hg).
 Qed.
 
 Corollary get_citations_metadata_weak_ex :
@@ -1278,13 +1363,16 @@ Qed.
 (* Strong form, for token lists in increasing order with non-empty tokens: every
    donor survives filter_citations, so donors can be taken from the result computed
    without remove_ambiguous (which is the result itself when ra = false). *)
-Theorem get_citations_metadata_ra :
-  forall search refsearch MAXC BACK D highest this_year edition_of source_of valid_name is_space
+Theorem get_citations_metadata_ra_w :
+  forall (Wok Wd : str -> Prop)
+         search refsearch MAXC BACK D highest this_year edition_of source_of valid_name is_space
          text words cits ra l,
   text <> s_eyecite ->
   stream_ok text words -> cits_ok words cits -> toks_ok source_of words ->
-  search_ok search -> refs_ok refsearch ->
-  defyear_ok search -> cits_sorted cits -> cits_nonempty cits ->
+  (forall a b, Wok (slice text a b)) ->
+  (forall w c r, infix w text -> w = c :: r -> in_chars [COMMA; SP; LPAR] c = false -> Wd w) ->
+  search_ok_w Wok search -> refs_ok refsearch ->
+  defyear_ok_w Wd search -> cits_sorted cits -> cits_nonempty cits ->
   get_citations search refsearch MAXC BACK D highest this_year edition_of source_of valid_name is_space
                 text words cits ra = Ok l ->
   exists l0,
@@ -1292,18 +1380,20 @@ Theorem get_citations_metadata_ra :
                   text words cits false = Ok l0 /\
     (forall c, In c l -> In c l0) /\ Forall (meta_ok text l0) l.
 Proof.
-  intros search refsearch MAXC BACK D highest this_year edition_of source_of valid_name is_space
-         text words cits ra l Hne Hstream Hcits Htoks Hsearch Hrefs Hdy Hsort Hnonempty Hg.
+  intros Wok Wd search refsearch MAXC BACK D highest this_year edition_of source_of valid_name is_space
+         text words cits ra l Hne Hstream Hcits Htoks HWok HWd Hsearch Hrefs Hdy Hsort Hnonempty Hg.
   unfold get_citations in *.
   destruct (str_eqb_spec text s_eyecite) as [E|_]; [contradiction|].
   destruct (cite_run _ _ _ _ _ _ _ _ _ _ _ _ _ _ _) as [acc|] eqn:Er; [|discriminate Hg].
   cbn [bind] in *. injection Hg as <-.
   exists (filter_pcits (rev acc)). split; [reflexivity|].
   assert (Hacc : minv text acc).
-  { eapply cite_run_meta; try eassumption. constructor. }
+  { eapply (cite_run_meta search refsearch MAXC BACK D highest this_year edition_of source_of
+              valid_name is_space text words Wok Wd Hstream Hsearch HWok HWd Hdy Htoks Hrefs);
+      [exact Hcits|constructor|exact Er]. }
   assert (Hs : exists k, sinv words k acc).
   { eapply (cite_run_sinv search refsearch MAXC BACK D highest this_year edition_of source_of
-              valid_name is_space text words Hstream Hsearch cits 0%nat []);
+              valid_name is_space text words Wok Hstream Hsearch HWok cits 0%nat []);
       [| exact Hsort | intros; lia | split; constructor | exact Er].
     intros i t Hit. split; [apply Hcits, Hit|apply (Hnonempty i t Hit)]. }
   destruct Hs as (k & Hord & Hgood).
@@ -1327,6 +1417,84 @@ Proof.
   intros v Hv. destruct (Hacc v Hv) as [Hi|(Hcl & d & Hd & Hdc & Hrest)]; [left; exact Hi|].
   right. split; [exact Hcl|]. exists d. split; [|split; [exact Hdc|exact Hrest]].
   apply Hsurv; [exact Hd|]. unfold is_ref. rewrite Hdc. reflexivity.
+Qed.
+
+Theorem get_citations_metadata_ra :
+  forall search refsearch MAXC BACK D highest this_year edition_of source_of valid_name is_space
+         text words cits ra l,
+  text <> s_eyecite ->
+  stream_ok text words -> cits_ok words cits -> toks_ok source_of words ->
+  search_ok search -> refs_ok refsearch ->
+  defyear_ok search -> cits_sorted cits -> cits_nonempty cits ->
+  get_citations search refsearch MAXC BACK D highest this_year edition_of source_of valid_name is_space
+                text words cits ra = Ok l ->
+  exists l0,
+    get_citations search refsearch MAXC BACK D highest this_year edition_of source_of valid_name is_space
+                  text words cits false = Ok l0 /\
+    (forall c, In c l -> In c l0) /\ Forall (meta_ok text l0) l.
+Proof.
+  intros search refsearch MAXC BACK D highest this_year edition_of source_of valid_name is_space
+         text words cits ra l Hne Hstream Hcits Htoks Hsearch Hrefs Hdy Hsort Hnonempty Hg.
+  exact (get_citations_metadata_ra_w (fun _ => True) (fun _ => True)
+           _ _ _ _ _ _ _ _ _ _ _ _ _ _ _ _ Hne Hstream Hcits Htoks (fun _ _ => I)
+           (fun _ _ _ _ _ _ => I) (search_ok_w_of_ok _ _ Hsearch) Hrefs
+           (defyear_ok_w_of_ok _ _ Hdy) Hsort Hnonempty Hg).
+Qed.
+
+(* the guarded forms: a text without whitespace other than U+0020; the backward-anchor clause and
+   defyear_ok are only required on the windows such a text produces *)
+Lemma defyear_window_of_clean : forall is_space (text : str),
+  ws_clean is_space text ->
+  forall w c r, infix w text -> w = c :: r -> in_chars [COMMA; SP; LPAR] c = false ->
+    defyear_window is_space w.
+Proof.
+  intros is_space text Hclean w c r Hinf Hw Hc. split.
+  - apply (ws_clean_incl is_space text); [exact (infix_In _ _ Hinf)|exact Hclean].
+  - exists c, r. split; [exact Hw|].
+    destruct (is_space c) eqn:Es; [|reflexivity]. exfalso.
+    assert (Hin : In c text) by (apply (infix_In _ _ Hinf); rewrite Hw; left; reflexivity).
+    rewrite (Hclean c Hin Es) in Hc. vm_compute in Hc. discriminate Hc.
+Qed.
+
+Theorem get_citations_metadata_ra_g :
+  forall search refsearch MAXC BACK D highest this_year edition_of source_of valid_name is_space
+         text words cits ra l,
+  text <> s_eyecite -> ws_clean is_space text ->
+  stream_ok text words -> cits_ok words cits -> toks_ok source_of words ->
+  search_ok_g is_space search -> refs_ok refsearch ->
+  defyear_ok_g is_space search -> cits_sorted cits -> cits_nonempty cits ->
+  get_citations search refsearch MAXC BACK D highest this_year edition_of source_of valid_name is_space
+                text words cits ra = Ok l ->
+  exists l0,
+    get_citations search refsearch MAXC BACK D highest this_year edition_of source_of valid_name is_space
+                  text words cits false = Ok l0 /\
+    (forall c, In c l -> In c l0) /\ Forall (meta_ok text l0) l.
+Proof.
+  intros search refsearch MAXC BACK D highest this_year edition_of source_of valid_name is_space
+         text words cits ra l Hne Hclean Hstream Hcits Htoks Hsearch Hrefs Hdy Hsort Hnonempty Hg.
+  exact (get_citations_metadata_ra_w (ws_clean is_space) (defyear_window is_space)
+           _ _ _ _ _ _ _ _ _ _ _ _ _ _ _ _ Hne Hstream Hcits Htoks
+           (fun a b => ws_clean_slice is_space text a b Hclean)
+           (defyear_window_of_clean is_space text Hclean)
+           (search_ok_w_of_g _ _ Hsearch) Hrefs
+           (defyear_ok_w_of_g _ _ Hdy) Hsort Hnonempty Hg).
+Qed.
+
+Theorem get_citations_metadata_sorted_g :
+  forall search refsearch MAXC BACK D highest this_year edition_of source_of valid_name is_space
+         text words cits l,
+  text <> s_eyecite -> ws_clean is_space text ->
+  stream_ok text words -> cits_ok words cits -> toks_ok source_of words ->
+  search_ok_g is_space search -> refs_ok refsearch ->
+  defyear_ok_g is_space search -> cits_sorted cits -> cits_nonempty cits ->
+  get_citations search refsearch MAXC BACK D highest this_year edition_of source_of valid_name is_space
+                text words cits false = Ok l ->
+  Forall (meta_ok text l) l.
+Proof.
+  intros until l. intros Hne Hclean Hstream Hcits Htoks Hsearch Hrefs Hdy Hsort Hnonempty Hg.
+  destruct (get_citations_metadata_ra_g _ _ _ _ _ _ _ _ _ _ _ _ _ _ _ _
+              Hne Hclean Hstream Hcits Htoks Hsearch Hrefs Hdy Hsort Hnonempty Hg) as (l0 & Hg0 & _ & H).
+  rewrite Hg in Hg0. injection Hg0 as <-. exact H.
 Qed.
 
 (* the stated conclusion, for remove_ambiguous = false *)
@@ -1549,3 +1717,6 @@ Proof.
     + unfold inside in Hi. apply infixb_spec in Hi. vm_compute in Hi. discriminate Hi.
     + discriminate Hdc.
 Qed.
+Print Assumptions get_citations_metadata_ra_w.
+Print Assumptions get_citations_metadata_ra_g.
+Print Assumptions get_citations_metadata_sorted_g.
